@@ -87,7 +87,7 @@ class R:
         for idx, (n, k, v) in enumerate(entries):
             last = idx == len(entries) - 1
             out.append(self.s(n, 'name'))
-            out.append(self.choose([' ', '\t', ' /*c*/ ', '   ', ' /* multi\nline */ '], 'gap'))
+            out.append(self.choose([' ', '\t', ' /*c*/ ', '   ', ' /* multi\nline */ ', ' /**/ ', ' /***/ ', ' /** stars **/ ', ' /* a * b / c */ ', ' /*/ slash */ '], 'gap'))
             if k == 's':
                 out.append(self.s(v, 'value'))
             elif k == 'i':
